@@ -37,6 +37,17 @@ TEMPLATES = [
     ('parse_timestamp!(.s, format: "%+")', {"s": "2021-10-31T01:30:00.5+01:00"}, False),
     ('parse_timestamp!(.s, format: "%+")', {"s": "2020-02-29T23:59:59Z"}, False),
     ('parse_timestamp!(.s, format: "%s")', {"s": "1614834367"}, False),
+    # every zone specifier format_has_zone() recognises makes the parse independent of the configured zone
+    ('parse_timestamp!(.s, format: "%Y-%m-%d %H:%M:%S %#z")', {"s": "2021-03-04 05:06:07 +02"}, False),
+    ('parse_timestamp!(.s, format: "%Y-%m-%d %H:%M:%S %#z")', {"s": "2021-03-04 05:06:07 -0930"}, False),
+    ('to_unix_timestamp(parse_timestamp!(.s, format: "%d/%m/%Y %H:%M %#z"))', {"s": "10/07/2020 16:00 +09"}, False),
+    ('parse_timestamp!(.s, format: "%Y-%m-%d %H:%M:%S %Z")', {"s": "2021-03-04 05:06:07 UTC"}, False),
+    # an explicit timezone argument overrides the configured one; "" and "local" both name the system zone
+    ('parse_timestamp!(.s, format: "%Y-%m-%d %H:%M:%S", timezone: "")', {"s": "2021-03-04 05:06:07"}, False),
+    ('parse_timestamp!(.s, format: "%Y-%m-%d %H:%M:%S", timezone: "local")', {"s": "2021-03-04 05:06:07"}, False),
+    ('parse_timestamp!(.s, format: "%Y-%m-%d %H:%M:%S", timezone: string!(.tz))', {"s": "2021-03-04 05:06:07", "tz": ""}, False),
+    ('parse_timestamp!(.s, format: "%Y-%m-%d %H:%M:%S", timezone: string!(.tz))', {"s": "2021-03-04 05:06:07", "tz": "Asia/Kolkata"}, False),
+    ('format_timestamp!(.t, format: "%Y-%m-%d %H:%M:%S", timezone: "")', {"t": "TS"}, False),
     ('parse_timestamp!(.s, format: "%Y-%m-%d %H:%M:%S", timezone: "Asia/Tokyo")', {"s": "2021-03-04 05:06:07"}, False),
     ('parse_timestamp!(.s, format: "%Y-%m-%d %H:%M:%S", timezone: "UTC")', {"s": "2021-03-28 02:30:00"}, False),
     ('parse_timestamp!(.s, format: "%Y-%m-%d %H:%M:%S")', {"s": "2021-03-04 05:06:07"}, True),
